@@ -558,6 +558,22 @@ func stepWhole(m *Machine, pc uint16, max int) int {
 	return n
 }
 
+// WholeAndEmit steps until PC leaves the current instruction and writes the "w" event.
+func (m *Machine) WholeAndEmit(w *bufio.Writer) {
+	m.Mem.Reset()
+	var pio [][3]int
+	if m.IO != nil {
+		m.IO.Reset()
+	}
+	steps := stepWhole(m, m.CPU.PC, 70000)
+	if m.IO != nil {
+		pio = m.IO.Log
+	}
+	rg := Regs(&m.CPU.States)
+	fmt.Fprintf(w, `{"e":"w","steps":%d,"r":%s,"h":%d,"md":%s,"pio":%s}`+"\n", steps, jInts(rg[:]), b2i(m.CPU.HALT),
+		jPairs(m.Mem.Diff()), jTriples(pio))
+}
+
 func cmdBlocks(args []string) {
 	fs := flag.NewFlagSet("blocks", flag.ExitOnError)
 	out := fs.String("out", "", "output directory")
@@ -638,12 +654,7 @@ func cmdBlocks(args []string) {
 			is := blockInit(r, op, cnt, hl, (hl+dist)&0xffff, pc, a)
 			m := NewMachine(is)
 			EmitInit(w, is)
-			m.Mem.Reset()
-			m.IO.Reset()
-			steps := stepWhole(m, uint16(pc), 70000)
-			rg := Regs(&m.CPU.States)
-			fmt.Fprintf(w, `{"e":"w","steps":%d,"r":%s,"h":%d,"md":%s,"pio":%s}`+"\n", steps, jInts(rg[:]), b2i(m.CPU.HALT),
-				jPairs(m.Mem.Diff()), jTriples(m.IO.Log))
+			m.WholeAndEmit(w)
 		}
 		w.Flush()
 		f.Close()
